@@ -64,6 +64,10 @@ def gen_cases(tier, seed):
             for cname in ("DrillholeGroup", "IntegratorDrillholeGroup"):
                 for v in (2.0, 2.1):
                     cases.append({"kind": "drill", "cls": cname, "target": t, "version": v, "rep": rep})
+        if rep == 0:
+            # the left-alone lane into another workspace once more, this time with one hole copied over on its own beforehand
+            cases.append({"kind": "drill", "cls": "DrillholeGroup", "target": "other-workspace", "version": 2.0, "rep": 3})
+            cases.append({"kind": "drill", "cls": "IntegratorDrillholeGroup", "target": "other-workspace", "version": 2.1, "rep": 4})
         # linked survey pairs (receivers / transmitters, receivers / base stations, potential / current electrodes)
         from . import c20
 
@@ -742,7 +746,7 @@ def run_drill(case, rec, rng, scene):
         local = DrillholeGroup.create(target.workspace, name="local holes")
         lh = Drillhole.create(target.workspace, parent=local, name="local", collar=[9.0, 9.0, 9.0], surveys=np.array([[0.0, 0.0, -90.0], [10.0, 0.0, -90.0]]))
         lh.add_data({"local log": {"depth": np.array([1.0, 2.0]), "values": np.array([5.0, 6.0])}})
-        if target.workspace is not scene.ws:
+        if target.workspace is not scene.ws and case.get("rep", 0) >= 3:
             # one of the holes was copied over on its own before (it keeps its identifier there): the group copy that follows
             # finds that identifier taken although the group's own is free
             alone = [c for c in grp.children if getattr(c, "name", "") == "h0"][0].copy(parent=local)
